@@ -8,7 +8,7 @@ LEAN_MODULE = "NunVerif.Props.C04"
 THEOREMS = ["Nun.C04_same_messages_same_state", "Nun.C04_fanout_reaches_every_secondary", "Nun.C14_secondary_never_fans_out", "Nun.C14_fanout_bounded"]
 
 OPS = ["set a {v}", "set b {v}", "set a two words {v}", "remove a", "remove b", "increment n", "increment n 5", "increment n 0", "increment m{v} 0", "increment n -3", "remove n", "set-safe a {ver} s{v}", "create-user u{v} pw", "set-permissions u1 rw a*",
-       "snapshot false", "create-db d{v} tk", "set n 7", "resolve {v} t r 1 res{v}"]
+       "snapshot false", "create-db d{v} tk", "set n 7", "resolve {v} t r 1 res{v}", "SNAP", "SNAP"]
 
 def setup(net, k, rng):
     if not cluster.form_cluster(net, k, rng): return False
@@ -70,7 +70,11 @@ def scenario(k, n_ops, concurrent, single_node=None):
             if tmpl.startswith("set-safe"): node = safe_node
             cmd = tmpl.format(v=ctr, ver=rng.below(4))
             hist.append((node, cmd))
-            net.cmd(node, 1, cmd)
+            if cmd == "SNAP":
+                # the periodic snapshot thread of ONE node runs (nodes snapshot on their own timers)
+                net.op(node, "SNAP"); net.op(node, "PUMP")
+            else:
+                net.cmd(node, 1, cmd)
             if concurrent:
                 for _ in range(rng.below(4)):
                     ps = net.pending()
@@ -80,7 +84,7 @@ def scenario(k, n_ops, concurrent, single_node=None):
                 if net.quiesce(rng, 300) is None: return [Failure("no-quiescence", f"after {cmd!r} on n{node}: messages still in flight after 300 deliveries")]
                 # sequential: the first operation after which a node differs from the primary names the failure
                 # (a key whose version ran ahead through the recorded echo defect is left out of later comparisons)
-                fs = diverged(net, k, hist, f"{cmd.split(' ')[0]}@{'primary' if node == 1 else 'secondary'}", tainted)
+                fs = diverged(net, k, hist, f"{cmd.split(' ')[0].lower()}@{'primary' if node == 1 else 'secondary'}", tainted)
                 found += fs
                 if [f for f in fs if f.cls != "version-differs:echo-of-own-write"]: return found
         if net.quiesce(rng, 600) is None: return [Failure("no-quiescence", "messages still in flight after 600 deliveries")]
